@@ -1440,4 +1440,1179 @@ theorem sumOver_blocks (w : Wave) (data : List Int) (hlen : data.length = w.iw.l
     rw [Bool.and_eq_true]
     exact ⟨decide_eq_true hc1, decide_eq_true hc2⟩
 
+/-! ## `timestamp_mean(axis=1)` at any split depth (deepening round D) -/
+
+
+/-- what `_int_mean(axis=1)` does to one row `r` of the array `rows` (proof device) -/
+def rowMeanWith (rows : List (List Int)) (w : Nat) (total : Int) (r : List Int) : Int :=
+  if _h : anyCould rows w = true ∧ 2 ≤ w then
+    rowMeanWith (rows.map (·.take (w / 2))) (w / 2) total (r.take (w / 2)) +
+      rowMeanWith (rows.map (·.drop (w / 2))) (w - w / 2) total (r.drop (w / 2))
+  else r.sum / total
+termination_by w
+decreasing_by all_goals omega
+
+def rowTraceWith (rows : List (List Int)) (w : Nat) (total : Int) (r : List Int) : List Int :=
+  if _h : anyCould rows w = true ∧ 2 ≤ w then
+    rowTraceWith (rows.map (·.take (w / 2))) (w / 2) total (r.take (w / 2)) ++
+      rowTraceWith (rows.map (·.drop (w / 2))) (w - w / 2) total (r.drop (w / 2)) ++
+      [rowMeanWith (rows.map (·.take (w / 2))) (w / 2) total (r.take (w / 2)) +
+        rowMeanWith (rows.map (·.drop (w / 2))) (w - w / 2) total (r.drop (w / 2))]
+  else [r.sum, r.sum / total]
+termination_by w
+decreasing_by all_goals omega
+
+theorem zipWith_map_map {α} (f g : α → Int) (l : List α) :
+    List.zipWith (· + ·) (l.map f) (l.map g) = l.map fun x => f x + g x := by
+  induction l with
+  | nil => rfl
+  | cons a t ih => simp [ih]
+
+theorem intMeanRows_node {rows : List (List Int)} {w : Nat} {t : Int} (h : anyCould rows w = true ∧ 2 ≤ w) :
+    intMeanRows rows w t = List.zipWith (· + ·) (intMeanRows (rows.map (·.take (w / 2))) (w / 2) t)
+      (intMeanRows (rows.map (·.drop (w / 2))) (w - w / 2) t) := by
+  rw [intMeanRows, dif_pos h]
+
+theorem rowMeanWith_node {rows : List (List Int)} {w : Nat} {t : Int} {r : List Int}
+    (h : anyCould rows w = true ∧ 2 ≤ w) :
+    rowMeanWith rows w t r = rowMeanWith (rows.map (·.take (w / 2))) (w / 2) t (r.take (w / 2)) +
+      rowMeanWith (rows.map (·.drop (w / 2))) (w - w / 2) t (r.drop (w / 2)) := by
+  rw [rowMeanWith, dif_pos h]
+
+theorem rowMeanWith_leaf {rows : List (List Int)} {w : Nat} {t : Int} {r : List Int}
+    (h : ¬(anyCould rows w = true ∧ 2 ≤ w)) : rowMeanWith rows w t r = r.sum / t := by
+  rw [rowMeanWith, dif_neg h]
+
+theorem intMeanRowsSplits_node {rows : List (List Int)} {w : Nat} (h : anyCould rows w = true ∧ 2 ≤ w) :
+    intMeanRowsSplits rows w = intMeanRowsSplits (rows.map (·.take (w / 2))) (w / 2) +
+      intMeanRowsSplits (rows.map (·.drop (w / 2))) (w - w / 2) + 1 := by
+  rw [intMeanRowsSplits, dif_pos h]
+
+theorem intMeanRowsSplits_leaf {rows : List (List Int)} {w : Nat} (h : ¬(anyCould rows w = true ∧ 2 ≤ w)) :
+    intMeanRowsSplits rows w = 0 := by
+  rw [intMeanRowsSplits, dif_neg h]
+
+theorem intMeanRows_eq_map (t : Int) (w : Nat) : ∀ (rows : List (List Int)),
+    intMeanRows rows w t = rows.map (rowMeanWith rows w t) := by
+  induction w using Nat.strongRecOn with
+  | ind w ih =>
+    intro rows
+    by_cases h : anyCould rows w = true ∧ 2 ≤ w
+    · rw [intMeanRows_node h, ih (w / 2) (by omega), ih (w - w / 2) (by omega), List.map_map,
+        List.map_map, zipWith_map_map]
+      apply List.map_congr_left
+      intro r _
+      rw [rowMeanWith_node h]
+      rfl
+    · rw [intMeanRows_leaf h]
+      apply List.map_congr_left
+      intro r _
+      rw [rowMeanWith_leaf h]
+
+theorem rowMeanWith_bounds (N : Int) (hN : 0 < N) (w : Nat) : ∀ (rows : List (List Int)) (r : List Int),
+    (∀ x ∈ r, 0 ≤ x) →
+    0 ≤ rowMeanWith rows w N r ∧ rowMeanWith rows w N r ≤ r.sum / N ∧
+      r.sum / N ≤ rowMeanWith rows w N r + intMeanRowsSplits rows w := by
+  induction w using Nat.strongRecOn with
+  | ind w ih =>
+    intro rows r h0
+    by_cases h : anyCould rows w = true ∧ 2 ≤ w
+    · have h1 := ih (w / 2) (by omega) (rows.map (·.take (w / 2))) (r.take (w / 2))
+        (fun x hx => h0 x (List.mem_of_mem_take hx))
+      have h2 := ih (w - w / 2) (by omega) (rows.map (·.drop (w / 2))) (r.drop (w / 2))
+        (fun x hx => h0 x (List.mem_of_mem_drop hx))
+      rw [rowMeanWith_node h, intMeanRowsSplits_node h]
+      have hs : r.sum = (r.take (w / 2)).sum + (r.drop (w / 2)).sum := by
+        rw [← List.sum_append, List.take_append_drop]
+      have := ediv_add_bounds N hN (r.take (w / 2)).sum (r.drop (w / 2)).sum
+      rw [hs]
+      omega
+    · rw [rowMeanWith_leaf h, intMeanRowsSplits_leaf h]
+      have := sum_nonneg r h0
+      have : 0 ≤ r.sum / N := Int.ediv_nonneg this (Int.le_of_lt hN)
+      omega
+
+theorem intMeanRowsSplits_le (w : Nat) : ∀ (rows : List (List Int)), intMeanRowsSplits rows w ≤ w - 1 := by
+  induction w using Nat.strongRecOn with
+  | ind w ih =>
+    intro rows
+    by_cases h : anyCould rows w = true ∧ 2 ≤ w
+    · rw [intMeanRowsSplits_node h]
+      have := ih (w / 2) (by omega) (rows.map (·.take (w / 2)))
+      have := ih (w - w / 2) (by omega) (rows.map (·.drop (w / 2)))
+      omega
+    · rw [intMeanRowsSplits_leaf h]; omega
+
+theorem rowTraceWith_node {rows : List (List Int)} {w : Nat} {t : Int} {r : List Int}
+    (h : anyCould rows w = true ∧ 2 ≤ w) :
+    rowTraceWith rows w t r =
+      rowTraceWith (rows.map (·.take (w / 2))) (w / 2) t (r.take (w / 2)) ++
+      rowTraceWith (rows.map (·.drop (w / 2))) (w - w / 2) t (r.drop (w / 2)) ++
+      [rowMeanWith (rows.map (·.take (w / 2))) (w / 2) t (r.take (w / 2)) +
+        rowMeanWith (rows.map (·.drop (w / 2))) (w - w / 2) t (r.drop (w / 2))] := by
+  rw [rowTraceWith, dif_pos h]
+
+theorem rowTraceWith_leaf {rows : List (List Int)} {w : Nat} {t : Int} {r : List Int}
+    (h : ¬(anyCould rows w = true ∧ 2 ≤ w)) : rowTraceWith rows w t r = [r.sum, r.sum / t] := by
+  rw [rowTraceWith, dif_neg h]
+
+theorem intMeanRowsTrace_node {rows : List (List Int)} {w : Nat} {t : Int} (h : anyCould rows w = true ∧ 2 ≤ w) :
+    intMeanRowsTrace rows w t =
+      intMeanRowsTrace (rows.map (·.take (w / 2))) (w / 2) t ++
+      intMeanRowsTrace (rows.map (·.drop (w / 2))) (w - w / 2) t ++
+      List.zipWith (· + ·) (intMeanRows (rows.map (·.take (w / 2))) (w / 2) t)
+        (intMeanRows (rows.map (·.drop (w / 2))) (w - w / 2) t) := by
+  rw [intMeanRowsTrace, dif_pos h]
+
+theorem intMeanRowsTrace_leaf {rows : List (List Int)} {w : Nat} {t : Int}
+    (h : ¬(anyCould rows w = true ∧ 2 ≤ w)) :
+    intMeanRowsTrace rows w t = (rows.map List.sum) ++ (rows.map fun r => r.sum / t) := by
+  rw [intMeanRowsTrace, dif_neg h]
+
+/-- every integer of the array-level trace is an integer of some row's trace -/
+theorem intMeanRowsTrace_mem (t : Int) (w : Nat) : ∀ (rows : List (List Int)) (y : Int),
+    y ∈ intMeanRowsTrace rows w t → ∃ r ∈ rows, y ∈ rowTraceWith rows w t r := by
+  induction w using Nat.strongRecOn with
+  | ind w ih =>
+    intro rows y hy
+    by_cases h : anyCould rows w = true ∧ 2 ≤ w
+    · rw [intMeanRowsTrace_node h] at hy
+      simp only [List.mem_append] at hy
+      rcases hy with (hy | hy) | hy
+      · rcases ih (w / 2) (by omega) _ y hy with ⟨r', hr', hy'⟩
+        rcases List.mem_map.mp hr' with ⟨r, hr, rfl⟩
+        exact ⟨r, hr, by rw [rowTraceWith_node h]; simp only [List.mem_append]; exact Or.inl (Or.inl hy')⟩
+      · rcases ih (w - w / 2) (by omega) _ y hy with ⟨r', hr', hy'⟩
+        rcases List.mem_map.mp hr' with ⟨r, hr, rfl⟩
+        exact ⟨r, hr, by rw [rowTraceWith_node h]; simp only [List.mem_append]; exact Or.inl (Or.inr hy')⟩
+      · rw [intMeanRows_eq_map, intMeanRows_eq_map, List.map_map, List.map_map, zipWith_map_map] at hy
+        rcases List.mem_map.mp hy with ⟨r, hr, rfl⟩
+        exact ⟨r, hr, by rw [rowTraceWith_node h]; simp [Function.comp]⟩
+    · rw [intMeanRowsTrace_leaf h] at hy
+      simp only [List.mem_append, List.mem_map] at hy
+      rcases hy with ⟨r, hr, rfl⟩ | ⟨r, hr, rfl⟩
+      · exact ⟨r, hr, by rw [rowTraceWith_leaf h]; simp⟩
+      · exact ⟨r, hr, by rw [rowTraceWith_leaf h]; simp⟩
+
+/-- a row of a block the (array-wide) conservative test lets through has a sum inside int64 -/
+theorem row_leaf_sum_le (rows : List (List Int)) (w : Nat) (r : List Int) (hr : r ∈ rows) (hl : r.length = w)
+    (M : Int) (hM : M ≤ I64MAX) (hb : ∀ x ∈ r, 0 ≤ x ∧ x ≤ M)
+    (h : ¬(anyCould rows w = true ∧ 2 ≤ w)) : r.sum ≤ I64MAX := by
+  apply leaf_sum_le r M hM hb
+  intro ⟨hc, h2⟩
+  apply h
+  refine ⟨?_, by omega⟩
+  simp only [anyCould, List.any_eq_true]
+  refine ⟨r, hr, ?_⟩
+  simpa [couldSumOverflow, hl] using hc
+
+/-- every integer `_int_mean(axis=1)` computes for a row of an array of values in `[0, M]`,
+    `M ≤ int64 max`, lies in `[0, int64 max]` -/
+theorem rowTraceWith_bounds (N : Int) (hN : 0 < N) (M : Int) (hM : M ≤ I64MAX) (w : Nat) :
+    ∀ (rows : List (List Int)) (r : List Int), r ∈ rows →
+    (∀ r' ∈ rows, r'.length = w ∧ ∀ x ∈ r', 0 ≤ x ∧ x ≤ M) → (w : Int) ≤ N →
+    ∀ y ∈ rowTraceWith rows w N r, 0 ≤ y ∧ y ≤ I64MAX := by
+  induction w using Nat.strongRecOn with
+  | ind w ih =>
+    intro rows r hr hb hl y hy
+    have hbr := hb r hr
+    by_cases h : anyCould rows w = true ∧ 2 ≤ w
+    · rw [rowTraceWith_node h] at hy
+      have hbt : ∀ r' ∈ rows.map (·.take (w / 2)), r'.length = w / 2 ∧ ∀ x ∈ r', 0 ≤ x ∧ x ≤ M := by
+        intro r' hr'
+        rcases List.mem_map.mp hr' with ⟨r0, hr0, rfl⟩
+        have := hb r0 hr0
+        exact ⟨by simp only [List.length_take]; omega, fun x hx => this.2 x (List.mem_of_mem_take hx)⟩
+      have hbd : ∀ r' ∈ rows.map (·.drop (w / 2)), r'.length = w - w / 2 ∧ ∀ x ∈ r', 0 ≤ x ∧ x ≤ M := by
+        intro r' hr'
+        rcases List.mem_map.mp hr' with ⟨r0, hr0, rfl⟩
+        have := hb r0 hr0
+        exact ⟨by simp only [List.length_drop]; omega, fun x hx => this.2 x (List.mem_of_mem_drop hx)⟩
+      simp only [List.mem_append, List.mem_singleton] at hy
+      rcases hy with (hy | hy) | hy
+      · exact ih (w / 2) (by omega) _ _ (List.mem_map_of_mem hr) hbt (by omega) y hy
+      · exact ih (w - w / 2) (by omega) _ _ (List.mem_map_of_mem hr) hbd (by omega) y hy
+      · subst hy
+        have b1 := rowMeanWith_bounds N hN (w / 2) (rows.map (·.take (w / 2))) (r.take (w / 2))
+          (fun x hx => (hbr.2 x (List.mem_of_mem_take hx)).1)
+        have b2 := rowMeanWith_bounds N hN (w - w / 2) (rows.map (·.drop (w / 2))) (r.drop (w / 2))
+          (fun x hx => (hbr.2 x (List.mem_of_mem_drop hx)).1)
+        have hs : r.sum = (r.take (w / 2)).sum + (r.drop (w / 2)).sum := by
+          rw [← List.sum_append, List.take_append_drop]
+        have b3 := ediv_add_bounds N hN (r.take (w / 2)).sum (r.drop (w / 2)).sum
+        rw [← hs] at b3
+        have hM0 : 0 ≤ M := by
+          match r, hbr with
+          | [], hbr => have := hbr.1; simp at this; omega
+          | x :: _, hbr => have := hbr.2 x List.mem_cons_self; omega
+        have h4 := sum_le_length_mul r M (fun x hx => (hbr.2 x hx).2)
+        rw [hbr.1] at h4
+        have h5 : (w : Int) * M ≤ N * M := Int.mul_le_mul_of_nonneg_right hl hM0
+        have h6 : r.sum / N ≤ M := Int.ediv_le_of_le_mul hN (by have := Int.mul_comm N M; omega)
+        omega
+    · rw [rowTraceWith_leaf h] at hy
+      have hs0 := sum_nonneg r (fun x hx => (hbr.2 x hx).1)
+      have hs1 := row_leaf_sum_le rows w r hr hbr.1 M hM hbr.2 h
+      simp only [List.mem_cons, List.not_mem_nil, or_false] at hy
+      rcases hy with hy | hy
+      · subst hy; exact ⟨hs0, hs1⟩
+      · subst hy
+        have : 0 ≤ r.sum / N := Int.ediv_nonneg hs0 (Int.le_of_lt hN)
+        have : r.sum / N ≤ r.sum := Int.ediv_le_self _ hs0
+        omega
+
+/-- the rows after the global minimum shift -/
+def shiftRows (rows : List (List Int)) : List (List Int) :=
+  rows.map fun r => r.map (· - listMin rows.flatten)
+
+theorem tsMeanRows_eq (rows : List (List Int)) (w : Nat) (hne : rows.flatten ≠ []) :
+    tsMeanRows rows w = some (rows.map fun r =>
+      listMin rows.flatten + rowMeanWith (shiftRows rows) w w (r.map (· - listMin rows.flatten))) := by
+  unfold tsMeanRows
+  rw [if_neg hne]
+  simp only [Option.some.injEq]
+  rw [intMeanRows_eq_map]
+  simp only [shiftRows, List.map_map]
+  rfl
+
+theorem shiftRows_bounds (rows : List (List Int)) (r : List Int) (hr : r ∈ rows) :
+    ∀ y ∈ r.map (· - listMin rows.flatten),
+      0 ≤ y ∧ y ≤ listMax rows.flatten - listMin rows.flatten := by
+  intro y hy
+  rcases List.mem_map.mp hy with ⟨x, hx, rfl⟩
+  have hxF : x ∈ rows.flatten := List.mem_flatten.mpr ⟨r, hr, hx⟩
+  have := listMin_le _ x hxF
+  have := le_listMax _ x hxF
+  omega
+
+/-- row `r` of `timestamp_mean(rows, axis=1)`, whatever the split depth -/
+theorem tsMeanRows_row_bounds (rows : List (List Int)) (w : Nat) (hw : 0 < w)
+    (hlen : ∀ r ∈ rows, r.length = w) (r : List Int) (hr : r ∈ rows) :
+    let v := listMin rows.flatten + rowMeanWith (shiftRows rows) w w (r.map (· - listMin rows.flatten))
+    r.sum / (w : Int) - intMeanRowsSplits (shiftRows rows) w ≤ v ∧ v ≤ r.sum / (w : Int) ∧
+      listMin rows.flatten ≤ v ∧ v ≤ listMax r := by
+  intro v
+  have hsh := shiftRows_bounds rows r hr
+  have b := rowMeanWith_bounds (w : Int) (by omega) w (shiftRows rows) _ (fun x hx => (hsh x hx).1)
+  rw [sum_map_sub, hlen r hr] at b
+  have e : r.sum - (w : Int) * listMin rows.flatten = r.sum + (w : Int) * (-listMin rows.flatten) := by
+    rw [Int.mul_neg]; omega
+  rw [e, Int.add_mul_ediv_left _ _ (by omega)] at b
+  have hrne : r ≠ [] := by
+    intro h; have := hlen r hr; rw [h] at this; simp at this; omega
+  have hm := (floor_mean_mem r hrne).2
+  rw [hlen r hr] at hm
+  refine ⟨?_, ?_, ?_, ?_⟩ <;> (simp only [v]; omega)
+
+
+theorem rowsOf_flatten_mem {α} (k : Nat) (l : List α) (x : α) (hx : x ∈ (rowsOf k l).flatten) : x ∈ l := by
+  rw [rowsOf_eq] at hx
+  rcases List.mem_flatten.mp hx with ⟨r, hr, hxr⟩
+  rcases List.mem_map.mp hr with ⟨j, _, rfl⟩
+  exact List.mem_of_mem_drop (List.mem_of_mem_take hxr)
+
+/-! ## `int(1e9 / (1e9 / dt))` in exact binary64 arithmetic (deepening round D) -/
+
+
+theorem mul_swap4 (X p q r : Nat) : X * p * (q * r) = X * q * (p * r) := by
+  rw [Nat.mul_assoc, Nat.mul_assoc, Nat.mul_left_comm p q r]
+
+theorem pow_shift (X Y a b a' b' : Nat) (h : X * 2 ^ a ≤ Y * 2 ^ b) (e : a + b' = b + a') :
+    X * 2 ^ a' ≤ Y * 2 ^ b' := by
+  apply Nat.le_of_mul_le_mul_right (c := 2 ^ (a + b')) _ (Nat.pow_pos (by omega))
+  have h' := Nat.mul_le_mul_right (2 ^ (a' + b')) h
+  have e1 : X * 2 ^ a' * 2 ^ (a + b') = X * 2 ^ a * 2 ^ (a' + b') := by
+    rw [Nat.pow_add, Nat.pow_add, mul_swap4]
+  have e2 : Y * 2 ^ b' * 2 ^ (a + b') = Y * 2 ^ b * 2 ^ (a' + b') := by
+    rw [e, Nat.pow_add, Nat.pow_add, Nat.mul_comm (2 ^ a') (2 ^ b'), mul_swap4]
+  rw [e1, e2]; exact h'
+
+theorem scaled_core (p q lp lq c : Nat) (h1 : 2 ^ lp ≤ p) (h2 : q < 2 ^ (lq + 1)) :
+    (q * 2 ^ (lp - (lq + (c + 1))) * 2 ^ (c + 1) ≤ p * 2 ^ ((lq + (c + 1)) - lp) →
+      q * 2 ^ (lp - (lq + c)) * 2 ^ c ≤ p * 2 ^ ((lq + c) - lp)) ∧
+    q * 2 ^ (lp - (lq + (c + 1))) * 2 ^ c ≤ p * 2 ^ ((lq + (c + 1)) - lp) := by
+  constructor
+  · intro h
+    rw [Nat.mul_assoc, ← Nat.pow_add] at h ⊢
+    exact pow_shift _ _ _ _ _ _ h (by omega)
+  · have h3 : q * 2 ^ lp ≤ p * 2 ^ (lq + 1) := by
+      have := Nat.mul_le_mul (Nat.le_of_lt h2) h1
+      rw [Nat.mul_comm (2 ^ (lq + 1))] at this; exact this
+    rw [Nat.mul_assoc, ← Nat.pow_add]
+    exact pow_shift _ _ _ _ _ _ h3 (by omega)
+
+/-- the chosen exponent scales the quotient to at least `2^c` -/
+theorem rnExp_scaled (c p q : Nat) (hp : 0 < p) :
+    q * 2 ^ (rnExp c p q).1 * 2 ^ c ≤ p * 2 ^ (rnExp c p q).2 := by
+  have h1 : 2 ^ p.log2 ≤ p := Nat.log2_self_le (by omega)
+  have h2 : q < 2 ^ (q.log2 + 1) := Nat.lt_log2_self
+  have hc := scaled_core p q p.log2 q.log2 c h1 h2
+  unfold rnExp
+  by_cases h : q * 2 ^ (p.log2 - (q.log2 + (c + 1))) * 2 ^ (c + 1) ≤ p * 2 ^ ((q.log2 + (c + 1)) - p.log2)
+  · rw [if_pos h]; exact hc.1 h
+  · rw [if_neg h]; exact hc.2
+
+theorem roundHalfEven_bounds (A B : Nat) (hB : 0 < B) :
+    2 * (roundHalfEven A B * B) ≤ 2 * A + B ∧ 2 * A ≤ 2 * (roundHalfEven A B * B) + B := by
+  have hdm := Nat.div_add_mod A B
+  have hr := Nat.mod_lt A hB
+  have e1 : (A / B + 1) * B = B * (A / B) + B := by rw [Nat.add_mul, Nat.mul_comm]; omega
+  have e0 : A / B * B = B * (A / B) := Nat.mul_comm _ _
+  unfold roundHalfEven
+  simp only []
+  split
+  · rw [e0]; omega
+  · split
+    · rw [e1]; omega
+    · split
+      · rw [e0]; omega
+      · rw [e1]; omega
+
+/-- the relative error of one rounded division is at most `2^-53`, in cross-multiplied form -/
+theorem rnDiv_err (p q : Nat) (hp : 0 < p) (hq : 0 < q) :
+    0 < (rnDiv p q).2 ∧
+    9007199254740992 * ((rnDiv p q).1 * q) ≤ 9007199254740993 * (p * (rnDiv p q).2) ∧
+    9007199254740991 * (p * (rnDiv p q).2) ≤ 9007199254740992 * ((rnDiv p q).1 * q) := by
+  have hs := rnExp_scaled 52 p q hp
+  unfold rnDiv
+  simp only []
+  generalize (rnExp 52 p q).1 = u at hs ⊢
+  generalize (rnExp 52 p q).2 = v at hs ⊢
+  have hB : 0 < q * 2 ^ u := Nat.mul_pos hq (Nat.pow_pos (by omega))
+  have hb := roundHalfEven_bounds (p * 2 ^ v) (q * 2 ^ u) hB
+  have e : roundHalfEven (p * 2 ^ v) (q * 2 ^ u) * 2 ^ u * q
+      = roundHalfEven (p * 2 ^ v) (q * 2 ^ u) * (q * 2 ^ u) := by
+    rw [Nat.mul_assoc, Nat.mul_comm (2 ^ u) q]
+  rw [e]
+  generalize roundHalfEven (p * 2 ^ v) (q * 2 ^ u) * (q * 2 ^ u) = mB at hb ⊢
+  generalize p * 2 ^ v = A at hs hb ⊢
+  generalize q * 2 ^ u = B at hs hb hB ⊢
+  refine ⟨Nat.pow_pos (by omega), ?_, ?_⟩ <;> omega
+
+/-- two rounded divisions in a row: `n1/d1 ≈ E/dt`, `n2/d2 ≈ E/(n1/d1)`, each with relative error at most
+    `1/K` (`Km = K − 1`, `Kp = K + 1`), give `Km·n2 ≤ Kp·dt·d2` and `Km·dt·d2 ≤ Kp·n2`. -/
+theorem two_stage (K Km Kp E dt n1 d1 n2 d2 : Nat) (hK : 0 < K) (hKm : 0 < Km) (hE : 0 < E) (hdt : 0 < dt)
+    (hd1 : 0 < d1)
+    (S1u : K * (n1 * dt) ≤ Kp * (E * d1)) (S1l : Km * (E * d1) ≤ K * (n1 * dt))
+    (S2u : K * (n2 * n1) ≤ Kp * (E * d1 * d2)) (S2l : Km * (E * d1 * d2) ≤ K * (n2 * n1)) :
+    Km * n2 ≤ Kp * (dt * d2) ∧ Km * (dt * d2) ≤ Kp * n2 := by
+  have hn1 : 0 < n1 := by
+    rcases Nat.eq_zero_or_pos n1 with h | h
+    · subst h
+      have : 0 < Km * (E * d1) := Nat.mul_pos hKm (Nat.mul_pos hE hd1)
+      simp at S1l; omega
+    · exact h
+  have hc : 0 < K * n1 := Nat.mul_pos hK hn1
+  constructor
+  · apply Nat.le_of_mul_le_mul_right (c := K * n1) _ hc
+    have a := Nat.mul_le_mul_left Km S2u
+    have b := Nat.mul_le_mul_left (Kp * d2) S1l
+    have e1 : Km * n2 * (K * n1) = Km * (K * (n2 * n1)) := by ac_rfl
+    have e2 : Km * (Kp * (E * d1 * d2)) = Kp * d2 * (Km * (E * d1)) := by ac_rfl
+    have e3 : Kp * d2 * (K * (n1 * dt)) = Kp * (dt * d2) * (K * n1) := by ac_rfl
+    rw [e1, ← e3]
+    exact Nat.le_trans a (e2 ▸ b)
+  · apply Nat.le_of_mul_le_mul_right (c := K * n1) _ hc
+    have a := Nat.mul_le_mul_left (Km * d2) S1u
+    have b := Nat.mul_le_mul_left Kp S2l
+    have e1 : Km * (dt * d2) * (K * n1) = Km * d2 * (K * (n1 * dt)) := by ac_rfl
+    have e2 : Km * d2 * (Kp * (E * d1)) = Kp * (Km * (E * d1 * d2)) := by ac_rfl
+    have e3 : Kp * (K * (n2 * n1)) = Kp * n2 * (K * n1) := by ac_rfl
+    rw [e1, ← e3]
+    exact Nat.le_trans a (e2 ▸ b)
+
+
+/-- the float round trip of a sample period loses at most one nanosecond, downwards -/
+theorem deltaSoft_near (dt : Nat) (h1 : 1 ≤ dt) (h2 : dt ≤ 1000000000000000) :
+    dt - 1 ≤ deltaSoft dt ∧ deltaSoft dt ≤ dt := by
+  unfold deltaSoft
+  simp only []
+  have s1 := rnDiv_err 1000000000 dt (by omega) (by omega)
+  generalize (rnDiv 1000000000 dt).1 = n1 at s1 ⊢
+  generalize (rnDiv 1000000000 dt).2 = d1 at s1 ⊢
+  have hn1 : 0 < n1 := by
+    rcases Nat.eq_zero_or_pos n1 with h | h
+    · subst h
+      have : 0 < 1000000000 * d1 := Nat.mul_pos (by omega) s1.1
+      omega
+    · exact h
+  have s2 := rnDiv_err (1000000000 * d1) n1 (Nat.mul_pos (by omega) s1.1) hn1
+  generalize (rnDiv (1000000000 * d1) n1).1 = n2 at s2 ⊢
+  generalize (rnDiv (1000000000 * d1) n1).2 = d2 at s2 ⊢
+  have hd2 := s2.1
+  have ts := two_stage 9007199254740992 9007199254740991 9007199254740993 1000000000 dt n1 d1 n2 d2
+    (by omega) (by omega) (by omega) (by omega) s1.1 s1.2.1 s1.2.2 s2.2.1 s2.2.2
+  have hY : dt * d2 ≤ 1000000000000000 * d2 := Nat.mul_le_mul_right d2 h2
+  have hY1 : 1 * d2 ≤ dt * d2 := Nat.mul_le_mul_right d2 h1
+  constructor
+  · rw [Nat.le_div_iff_mul_le hd2, Nat.sub_mul]
+    generalize dt * d2 = Y at ts hY hY1 ⊢
+    omega
+  · apply Nat.le_of_lt_succ
+    rw [Nat.div_lt_iff_lt_mul hd2, Nat.succ_mul]
+    generalize dt * d2 = Y at ts hY hY1 ⊢
+    omega
+
+theorem deltaSoft_one : deltaSoft 1 = 1 := by decide +kernel
+
+example : deltaSoft 55 = 54 ∧ deltaSoft 57 = 56 ∧ deltaSoft 110 = 109 ∧ deltaSoft 12800 = 12800 ∧
+    deltaSoft 100000000 = 100000000 := by decide +kernel
+
+/-! ## zero-tolerant windows, frames with dead time, boundary count, longer channels (deepening round D) -/
+
+theorem sum_filter_split {β} (f : β → Int) (p q : β → Bool) : ∀ (l : List β),
+    ((l.filter p).map f).sum = ((l.filter (fun s => p s && q s)).map f).sum +
+      ((l.filter (fun s => p s && !q s)).map f).sum
+  | [] => by simp
+  | a :: t => by
+    have ih := sum_filter_split f p q t
+    simp only [List.filter_cons]
+    cases hp : p a <;> cases hq : q a <;> simp [ih] <;> omega
+
+theorem sum_map_zero {β} (f : β → Int) : ∀ (l : List β), (∀ x ∈ l, f x = 0) → (l.map f).sum = 0
+  | [], _ => by simp
+  | a :: t, h => by
+    simp only [List.map_cons, List.sum_cons, h a (by simp),
+      sum_map_zero f t (fun x hx => h x (List.mem_cons_of_mem _ hx))]
+    rfl
+
+/-- `window_raw` for totals: elements of the full stream inside the window that are missing from the
+    sub-stream may be present as long as their value is zero -/
+theorem window_raw_sum {β} (δ dt : Int) (h1 : 1 ≤ δ) (h2 : δ ≤ dt) (key val : β → Int) (SP UP : List β)
+    (hsep : Sep dt key SP) (hsub : UP.Sublist SP) (a b : Nat) (hab : a ≤ b) (hb : b < UP.length)
+    (lo hi : Int) (hlo : lo = key (UP[a]'(by omega))) (hhi : hi = key UP[b])
+    (hzero : ∀ s ∈ SP, lo ≤ key s → key s ≤ hi → key s ∉ UP.map key → val s = 0) :
+    ((SP.filter (fun s => decide (lo ≤ key s) && decide (key s < hi + δ))).map val).sum
+      = (((UP.drop a).take (b + 1 - a)).map val).sum ∧
+    SP.filter (fun s => decide (lo ≤ key s) && decide (key s < hi + δ)) ≠ [] := by
+  have hdt : 0 < dt := by omega
+  constructor
+  · rw [sum_filter_split val _ (fun s => decide (key s ∈ UP.map key))]
+    have p1 : SP.filter (fun s => (decide (lo ≤ key s) && decide (key s < hi + δ)) && decide (key s ∈ UP.map key))
+        = (UP.drop a).take (b + 1 - a) := by
+      rw [← List.filter_filter, ← sublist_eq_filter_key hdt key hsep hsub]
+      exact filter_window δ h1 key UP ((hsep.sublist hsub).mono h2) a b hab hb lo hi hlo hhi
+    have z : ((SP.filter (fun s => (decide (lo ≤ key s) && decide (key s < hi + δ)) &&
+        !decide (key s ∈ UP.map key))).map val).sum = 0 := by
+      apply sum_map_zero
+      intro s hs
+      rcases List.mem_filter.mp hs with ⟨hsm, hc⟩
+      simp only [Bool.and_eq_true, decide_eq_true_eq, Bool.not_eq_true', decide_eq_false_iff_not] at hc
+      have hle : key s ≤ hi := by
+        rcases Int.lt_or_le hi (key s) with h | h
+        · have hbm : UP[b] ∈ SP := hsub.subset (List.getElem_mem _)
+          have := hsep.of_key_lt hdt hbm hsm (by omega)
+          omega
+        · exact h
+      exact hzero s hsm hc.1.1 hle hc.2
+    rw [p1, z]
+    omega
+  · intro h
+    have hm : UP[a]'(by omega) ∈ SP := hsub.subset (List.getElem_mem _)
+    have hle := ((hsep.sublist hsub).mono (show (0 : Int) ≤ dt by omega)).getElem_le (by omega) (i := a) (j := b) (by omega) hab
+    have : UP[a]'(by omega) ∈ SP.filter (fun s => decide (lo ≤ key s) && decide (key s < hi + δ)) := by
+      rw [List.mem_filter]
+      refine ⟨hm, ?_⟩
+      simp only [Bool.and_eq_true, decide_eq_true_eq]
+      omega
+    rw [h] at this
+    simp at this
+
+/-- channel side: `downsampled_over(line ranges, np.sum)` yields, for every line, the total of the
+    line's used data — provided every discarded sample inside a line carries a zero -/
+theorem sumOver_blocks_zero (w : Wave) (data : List Int) (hlen : data.length = w.iw.length)
+    (hdt : 0 < w.dt) (hs : 0 ≤ w.start) (k : Nat) (hk : w.pixelSize = some k) (P : Nat) (hP : 0 < P)
+    (δ : Int) (h1 : 1 ≤ δ) (h2 : δ ≤ w.dt)
+    (hzero : ∀ l, l < numBlocks (w.usedTs.length / k) P → ∀ s ∈ C01.samplesFrom w.start w.dt data,
+      w.usedTs.getD (l * P * k) 0 ≤ s.1 →
+      s.1 ≤ w.usedTs.getD (min ((l + 1) * P) (w.usedTs.length / k) * k - 1) 0 → s.1 ∉ w.usedTs → s.2 = 0)
+    (rs : List (Int × Int)) (hrs : w.lineRangesExcl P δ = some rs) :
+    sumOver ⟨w.start, w.dt, data⟩ rs =
+      (List.range (numBlocks (w.usedTs.length / k) P)).map
+        (blockSum (usedOf w.iw data) k (w.usedTs.length / k) P) := by
+  have hk0 := pixelSize_pos w k hk
+  rw [lineRangesExcl_spec w hdt hs k hk P hP δ] at hrs
+  injection hrs with hrs
+  subst hrs
+  unfold Wave.numPix
+  -- the sample stream of the channel and its used part
+  have hSPfst : (C01.samplesFrom w.start w.dt data).map (·.1) = w.allTs := by
+    rw [samplesFrom_fst, hlen]; rfl
+  have hsepSP : Sep w.dt (fun s : C01.Sample => s.1) (C01.samplesFrom w.start w.dt data) := by
+    have := allTs_sep w hdt
+    rw [← hSPfst] at this
+    exact List.pairwise_map.mp this
+  have hUPfst : (usedOf w.iw (C01.samplesFrom w.start w.dt data)).map (·.1) = w.usedTs := by
+    rw [usedOf_map, hSPfst]; rfl
+  have hUPsnd : (usedOf w.iw (C01.samplesFrom w.start w.dt data)).map (·.2) = usedOf w.iw data := by
+    rw [usedOf_map, samplesFrom_snd]
+  have hUPlen : (usedOf w.iw (C01.samplesFrom w.start w.dt data)).length = w.usedTs.length := by
+    rw [← hUPfst, List.length_map]
+  -- facts per line
+  have key : ∀ l, l < numBlocks (w.usedTs.length / k) P →
+      (((C01.Cont.slice ⟨w.start, w.dt, data⟩ (w.usedTs.getD (l * P * k) 0)
+        (w.usedTs.getD (min ((l + 1) * P) (w.usedTs.length / k) * k - 1) 0 + δ)).samples.map (·.2)).sum
+      = ((((usedOf w.iw (C01.samplesFrom w.start w.dt data)).drop (l * P * k)).take
+          ((min ((l + 1) * P) (w.usedTs.length / k) - l * P) * k)).map (·.2)).sum ∧
+      (C01.Cont.slice ⟨w.start, w.dt, data⟩ (w.usedTs.getD (l * P * k) 0)
+        (w.usedTs.getD (min ((l + 1) * P) (w.usedTs.length / k) * k - 1) 0 + δ)).samples ≠ []) ∧
+      0 < (min ((l + 1) * P) (w.usedTs.length / k) - l * P) * k ∧
+      l * P * k + (min ((l + 1) * P) (w.usedTs.length / k) - l * P) * k ≤ w.usedTs.length ∧
+      w.start ≤ w.usedTs.getD (l * P * k) 0 ∧
+      w.usedTs.getD (min ((l + 1) * P) (w.usedTs.length / k) * k - 1) 0 + δ
+        ≤ w.start + (data.length : Int) * w.dt := by
+    intro l hl
+    have hlt := (lt_numBlocks_iff _ _ _ hP).mp hl
+    have hP1 : (l + 1) * P = l * P + P := by rw [Nat.add_mul]; omega
+    have hmin : l * P + 1 ≤ min ((l + 1) * P) (w.usedTs.length / k) := by omega
+    have he1 : (l * P + 1) * k ≤ min ((l + 1) * P) (w.usedTs.length / k) * k := Nat.mul_le_mul_right _ hmin
+    have he2 : min ((l + 1) * P) (w.usedTs.length / k) * k ≤ w.usedTs.length / k * k :=
+      Nat.mul_le_mul_right _ (Nat.min_le_right _ _)
+    have he3 := Nat.div_mul_le_self w.usedTs.length k
+    rw [Nat.add_mul] at he1
+    have hsub : (min ((l + 1) * P) (w.usedTs.length / k) - l * P) * k
+        = min ((l + 1) * P) (w.usedTs.length / k) * k - 1 + 1 - l * P * k := by
+      rw [Nat.sub_mul]; omega
+    have ha : l * P * k < w.usedTs.length := by omega
+    have hb : min ((l + 1) * P) (w.usedTs.length / k) * k - 1 < w.usedTs.length := by omega
+    have hslice := C01.cont_slice_samples ⟨w.start, w.dt, data⟩ hdt (w.usedTs.getD (l * P * k) 0)
+      (w.usedTs.getD (min ((l + 1) * P) (w.usedTs.length / k) * k - 1) 0 + δ)
+    refine ⟨?_, by omega, by omega, ?_, ?_⟩
+    · rw [hslice, hsub]
+      have hlo : w.usedTs.getD (l * P * k) 0
+          = ((usedOf w.iw (C01.samplesFrom w.start w.dt data))[l * P * k]'(by rw [hUPlen]; omega)).1 := by
+        rw [getD_eq _ _ ha]
+        simp only [← hUPfst, List.getElem_map]
+      have hhi : w.usedTs.getD (min ((l + 1) * P) (w.usedTs.length / k) * k - 1) 0
+          = ((usedOf w.iw (C01.samplesFrom w.start w.dt data))[min ((l + 1) * P) (w.usedTs.length / k) * k - 1]'(by rw [hUPlen]; omega)).1 := by
+        rw [getD_eq _ _ hb]
+        simp only [← hUPfst, List.getElem_map]
+      exact window_raw_sum δ w.dt h1 h2 (fun s : C01.Sample => s.1) (fun s : C01.Sample => s.2) _ _ hsepSP
+        (usedOf_sublist _ _) (l * P * k)
+        (min ((l + 1) * P) (w.usedTs.length / k) * k - 1) (by omega) (by rw [hUPlen]; omega) _ _ hlo hhi
+        (fun s hsm hl1 hl2 hnot => by
+          rw [hUPfst] at hnot
+          exact hzero l hl s hsm hl1 hl2 hnot)
+    · rw [getD_eq _ _ ha]
+      exact usedTs_ge w hdt _ (List.getElem_mem _)
+    · rw [getD_eq _ _ hb, hlen]
+      have hmem : w.usedTs[min ((l + 1) * P) (w.usedTs.length / k) * k - 1] ∈ w.allTs :=
+        (usedTs_sublist w).subset (List.getElem_mem _)
+      have := times_stop w.dt hdt _ _ _ hmem
+      omega
+  unfold sumOver
+  rw [List.filter_eq_self.mpr]
+  · rw [List.filterMap_map]
+    apply filterMap_eq_map_of
+    intro l hl
+    have hl := List.mem_range.mp hl
+    obtain ⟨⟨hsl, hne⟩, hpos, hle, _, _⟩ := key l hl
+    simp only [Function.comp]
+    rw [if_neg (by simpa using hne), hsl]
+    simp only [blockSum, List.map_take, List.map_drop, hUPsnd]
+  · intro r hr
+    rcases List.mem_map.mp hr with ⟨l, hl, rfl⟩
+    have hl := List.mem_range.mp hl
+    obtain ⟨_, _, _, hc1, hc2⟩ := key l hl
+    simp only [C01.Cont.stop]
+    rw [Bool.and_eq_true]
+    exact ⟨decide_eq_true hc1, decide_eq_true hc2⟩
+
+theorem frameRanges_single_incl (w : Wave) (k : Nat) (hdt : 0 < w.dt)
+    (hk : w.pixelSize = some k) (P L : Nat) (δ : Int)
+    (h1 : numBlocks (w.usedTs.length / k) (L * P) = 1) :
+    w.frameRanges P L true δ = w.frameRanges P L false δ := by
+  unfold Wave.frameRanges
+  rw [pixReduce_min w hdt k hk, pixReduce_max w hdt k hk]
+  simp only [padRows_length, List.length_map, List.length_range]
+  rw [if_pos h1, if_pos h1]
+
+theorem count2_pixelCodes (k : Nat) : ((pixelCodes k).filter (· == 2)).length = 1 := by
+  unfold pixelCodes
+  rw [List.filter_append, List.filter_eq_nil_iff.mpr]
+  · rfl
+  · intro x hx
+    rw [(List.mem_replicate.mp hx).2]; decide
+
+theorem count2_pixels (k : Nat) : ∀ (m : Nat),
+    ((List.replicate m (pixelCodes k)).flatten.filter (· == 2)).length = m
+  | 0 => rfl
+  | m + 1 => by
+    rw [List.replicate_succ, List.flatten_cons, List.filter_append, List.length_append,
+      count2_pixelCodes, count2_pixels k m]; omega
+
+/-- a regular wave has one pixel-boundary code per complete pixel -/
+theorem Wave.Regular.numBoundaries {w : Wave} {k m r : Nat} (h : w.Regular k m r) :
+    w.numBoundaries = m := by
+  obtain ⟨_, _, _, hs⟩ := h
+  have e : w.iw.filter (· == 2) = w.subset.filter (· == 2) := by
+    unfold Wave.subset
+    rw [List.filter_filter]
+    apply List.filter_congr
+    intro x _
+    by_cases hx : x = 2
+    · subst hx; rfl
+    · simp [hx]
+  unfold Wave.numBoundaries
+  rw [e, hs, List.filter_append, List.length_append, count2_pixels,
+    List.filter_eq_nil_iff.mpr (by intro x hx; rw [(List.mem_replicate.mp hx).2]; decide)]
+  rfl
+
+theorem samplesFrom_append (dt : Int) : ∀ (A B : List Int) (t0 : Int),
+    C01.samplesFrom t0 dt (A ++ B) = C01.samplesFrom t0 dt A ++ C01.samplesFrom (t0 + A.length * dt) dt B
+  | [], B, t0 => by simp [C01.samplesFrom]
+  | a :: A, B, t0 => by
+    simp only [List.cons_append, C01.samplesFrom, samplesFrom_append dt A B (t0 + dt), List.length_cons]
+    have : t0 + dt + (A.length : Int) * dt = t0 + ((A.length + 1 : Nat) : Int) * dt := by
+      rw [Int.natCast_add, Int.add_mul]; omega
+    rw [this]
+
+theorem samplesFrom_time_bounds (dt : Int) (hdt : 0 < dt) (A : List Int) (t0 : Int) :
+    ∀ s ∈ C01.samplesFrom t0 dt A, t0 ≤ s.1 ∧ s.1 + dt ≤ t0 + A.length * dt := by
+  intro s hs
+  have hm : s.1 ∈ times t0 dt A.length := by
+    rw [← samplesFrom_fst]; exact List.mem_map_of_mem hs
+  exact ⟨(times_sep dt hdt _ _).2 _ hm, times_stop dt hdt _ _ _ hm⟩
+
+theorem filterMap_congr_mem {α β} (f g : α → Option β) : ∀ (l : List α), (∀ x ∈ l, f x = g x) →
+    l.filterMap f = l.filterMap g
+  | [], _ => rfl
+  | a :: t, h => by
+    rw [List.filterMap_cons, List.filterMap_cons, h a (by simp),
+      filterMap_congr_mem f g t (fun x hx => h x (List.mem_cons_of_mem _ hx))]
+
+/-- **A channel that extends beyond the acquisition gives the same reduction**: samples recorded before
+    the first or after the last sample of the acquisition (`pre`, `post`, on the same sampling grid) never
+    enter a range that lies within the acquisition. -/
+theorem sumOver_extend (start dt : Int) (hdt : 0 < dt) (pre data post : List Int)
+    (rs : List (Int × Int))
+    (hcov : ∀ r ∈ rs, start ≤ r.1 ∧ r.2 ≤ start + data.length * dt) :
+    sumOver ⟨start - pre.length * dt, dt, pre ++ (data ++ post)⟩ rs = sumOver ⟨start, dt, data⟩ rs := by
+  have hpost : 0 ≤ (post.length : Int) * dt := Int.mul_nonneg (by omega) (by omega)
+  have hpre : 0 ≤ (pre.length : Int) * dt := Int.mul_nonneg (by omega) (by omega)
+  unfold sumOver
+  rw [List.filter_eq_self.mpr, List.filter_eq_self.mpr]
+  · apply filterMap_congr_mem
+    intro r hr
+    have hc := hcov r hr
+    have e : (C01.Cont.slice ⟨start - pre.length * dt, dt, pre ++ (data ++ post)⟩ r.1 r.2).samples
+        = (C01.Cont.slice ⟨start, dt, data⟩ r.1 r.2).samples := by
+      rw [C01.cont_slice_samples _ hdt, C01.cont_slice_samples _ hdt]
+      unfold C01.Cont.samples
+      simp only []
+      rw [samplesFrom_append, samplesFrom_append, List.filter_append, List.filter_append]
+      have e0 : start - (pre.length : Int) * dt + (pre.length : Int) * dt = start := by omega
+      rw [e0]
+      have z1 : (C01.samplesFrom (start - pre.length * dt) dt pre).filter (C01.inWin r.1 r.2) = [] := by
+        rw [List.filter_eq_nil_iff]
+        intro s hs
+        have := (samplesFrom_time_bounds dt hdt pre _ s hs).2
+        simp only [C01.inWin, Bool.and_eq_true, decide_eq_true_eq, not_and]
+        intro; omega
+      have z2 : (C01.samplesFrom (start + data.length * dt) dt post).filter (C01.inWin r.1 r.2) = [] := by
+        rw [List.filter_eq_nil_iff]
+        intro s hs
+        have := (samplesFrom_time_bounds dt hdt post _ s hs).1
+        simp only [C01.inWin, Bool.and_eq_true, decide_eq_true_eq, not_and]
+        intro; omega
+      rw [z1, z2]; simp
+    rw [e]
+  · intro r hr
+    have hc := hcov r hr
+    simp only [C01.Cont.stop]
+    rw [Bool.and_eq_true]
+    exact ⟨decide_eq_true hc.1, decide_eq_true hc.2⟩
+  · intro r hr
+    have hc := hcov r hr
+    simp only [C01.Cont.stop, List.length_append]
+    rw [Bool.and_eq_true]
+    have : ((pre.length + (data.length + post.length) : Nat) : Int) * dt
+        = pre.length * dt + data.length * dt + post.length * dt := by
+      rw [Int.natCast_add, Int.natCast_add, Int.add_mul, Int.add_mul]; omega
+    refine ⟨decide_eq_true (by omega), decide_eq_true ?_⟩
+    rw [this]; omega
+
+/-! ## seconds as binary64 values (deepening round D) -/
+
+
+theorem mul3_le {a1 a2 a3 b1 b2 b3 : Nat} (h1 : a1 ≤ b1) (h2 : a2 ≤ b2) (h3 : a3 ≤ b3) :
+    a1 * a2 * a3 ≤ b1 * b2 * b3 := Nat.mul_le_mul (Nat.mul_le_mul h1 h2) h3
+
+/-- three roundings in a row (`f ≈ N`, `c ≈ 1/E`, `s ≈ f·c`), each with relative error at most `1/K` -/
+theorem three_stage (K Km Kp N E f1 f2 c1 c2 s1 s2 : Nat) (hf1 : 0 < f1) (hf2 : 0 < f2) (hc1 : 0 < c1)
+    (hc2 : 0 < c2)
+    (Fu : K * (f1 * 1) ≤ Kp * (N * f2)) (Fl : Km * (N * f2) ≤ K * (f1 * 1))
+    (Cu : K * (c1 * E) ≤ Kp * (1 * c2)) (Cl : Km * (1 * c2) ≤ K * (c1 * E))
+    (Su : K * (s1 * (f2 * c2)) ≤ Kp * (f1 * c1 * s2)) (Sl : Km * (f1 * c1 * s2) ≤ K * (s1 * (f2 * c2))) :
+    K * K * K * (s1 * E) ≤ Kp * Kp * Kp * (N * s2) ∧ Km * Km * Km * (N * s2) ≤ K * K * K * (s1 * E) := by
+  have hC : 0 < f1 * c1 * (f2 * c2) := Nat.mul_pos (Nat.mul_pos hf1 hc1) (Nat.mul_pos hf2 hc2)
+  constructor
+  · apply Nat.le_of_mul_le_mul_right (c := f1 * c1 * (f2 * c2)) _ hC
+    have h := mul3_le Fu Cu Su
+    have e1 : K * K * K * (s1 * E) * (f1 * c1 * (f2 * c2))
+        = K * (f1 * 1) * (K * (c1 * E)) * (K * (s1 * (f2 * c2))) := by
+      simp only [Nat.mul_one]; ac_rfl
+    have e2 : Kp * Kp * Kp * (N * s2) * (f1 * c1 * (f2 * c2))
+        = Kp * (N * f2) * (Kp * (1 * c2)) * (Kp * (f1 * c1 * s2)) := by
+      simp only [Nat.one_mul]; ac_rfl
+    rw [e1, e2]; exact h
+  · apply Nat.le_of_mul_le_mul_right (c := f1 * c1 * (f2 * c2)) _ hC
+    have h := mul3_le Fl Cl Sl
+    have e1 : K * K * K * (s1 * E) * (f1 * c1 * (f2 * c2))
+        = K * (f1 * 1) * (K * (c1 * E)) * (K * (s1 * (f2 * c2))) := by
+      simp only [Nat.mul_one]; ac_rfl
+    have e2 : Km * Km * Km * (N * s2) * (f1 * c1 * (f2 * c2))
+        = Km * (N * f2) * (Km * (1 * c2)) * (Km * (f1 * c1 * s2)) := by
+      simp only [Nat.one_mul]; ac_rfl
+    rw [e1, e2]; exact h
+
+theorem rnDiv_pos (p q : Nat) (hp : 0 < p) (hq : 0 < q) : 0 < (rnDiv p q).1 ∧ 0 < (rnDiv p q).2 := by
+  have h := rnDiv_err p q hp hq
+  refine ⟨?_, h.1⟩
+  rcases Nat.eq_zero_or_pos (rnDiv p q).1 with h0 | h0
+  · rw [h0] at h
+    have : 0 < p * (rnDiv p q).2 := Nat.mul_pos hp h.1
+    omega
+  · exact h0
+
+/-- `float(N) * 1e-9` is within `(1 ± 2⁻⁵³)³` of `N·10⁻⁹` (cross-multiplied) -/
+theorem secondsOf_err (N : Nat) (hN : 0 < N) :
+    0 < (secondsOf N).2 ∧
+    9007199254740992 * 9007199254740992 * 9007199254740992 * ((secondsOf N).1 * 1000000000)
+      ≤ 9007199254740993 * 9007199254740993 * 9007199254740993 * (N * (secondsOf N).2) ∧
+    9007199254740991 * 9007199254740991 * 9007199254740991 * (N * (secondsOf N).2)
+      ≤ 9007199254740992 * 9007199254740992 * 9007199254740992 * ((secondsOf N).1 * 1000000000) := by
+  unfold secondsOf
+  rw [if_neg (by omega)]
+  simp only []
+  have hf := rnDiv_err N 1 hN (by omega)
+  have hfp := rnDiv_pos N 1 hN (by omega)
+  have hc := rnDiv_err 1 1000000000 (by omega) (by omega)
+  have hcp := rnDiv_pos 1 1000000000 (by omega) (by omega)
+  generalize rnDiv N 1 = f at hf hfp ⊢
+  generalize rnDiv 1 1000000000 = c at hc hcp ⊢
+  have hs := rnDiv_err (f.1 * c.1) (f.2 * c.2) (Nat.mul_pos hfp.1 hcp.1) (Nat.mul_pos hfp.2 hcp.2)
+  generalize rnDiv (f.1 * c.1) (f.2 * c.2) = s at hs ⊢
+  exact ⟨hs.1, three_stage _ _ _ N 1000000000 f.1 f.2 c.1 c.2 s.1 s.2 hfp.1 hfp.2 hcp.1 hcp.2
+    hf.2.1 hf.2.2 hc.2.1 hc.2.2 hs.2.1 hs.2.2⟩
+
+/-- `x * n` in binary64 is within `(1 ± 2⁻⁵³)²` of the exact product -/
+theorem timesNat_err (x : Nat × Nat) (n : Nat) (hx1 : 0 < x.1) (hx2 : 0 < x.2) (hn : 0 < n) :
+    0 < (timesNat x n).2 ∧
+    9007199254740992 * 9007199254740992 * ((timesNat x n).1 * x.2)
+      ≤ 9007199254740993 * 9007199254740993 * (x.1 * n * (timesNat x n).2) ∧
+    9007199254740991 * 9007199254740991 * (x.1 * n * (timesNat x n).2)
+      ≤ 9007199254740992 * 9007199254740992 * ((timesNat x n).1 * x.2) := by
+  unfold timesNat
+  rw [if_neg (by omega)]
+  simp only []
+  have hf := rnDiv_err n 1 hn (by omega)
+  have hfp := rnDiv_pos n 1 hn (by omega)
+  generalize rnDiv n 1 = f at hf hfp ⊢
+  have hs := rnDiv_err (x.1 * f.1) (x.2 * f.2) (Nat.mul_pos hx1 hfp.1) (Nat.mul_pos hx2 hfp.2)
+  generalize rnDiv (x.1 * f.1) (x.2 * f.2) = s at hs ⊢
+  refine ⟨hs.1, ?_, ?_⟩
+  · apply Nat.le_of_mul_le_mul_right (c := f.1 * f.2) _ (Nat.mul_pos hfp.1 hfp.2)
+    have h := Nat.mul_le_mul hf.2.1 hs.2.1
+    have e1 : 9007199254740992 * 9007199254740992 * (s.1 * x.2) * (f.1 * f.2)
+        = 9007199254740992 * (f.1 * 1) * (9007199254740992 * (s.1 * (x.2 * f.2))) := by
+      simp only [Nat.mul_one]; ac_rfl
+    have e2 : 9007199254740993 * 9007199254740993 * (x.1 * n * s.2) * (f.1 * f.2)
+        = 9007199254740993 * (n * f.2) * (9007199254740993 * (x.1 * f.1 * s.2)) := by ac_rfl
+    rw [e1, e2]; exact h
+  · apply Nat.le_of_mul_le_mul_right (c := f.1 * f.2) _ (Nat.mul_pos hfp.1 hfp.2)
+    have h := Nat.mul_le_mul hf.2.2 hs.2.2
+    have e1 : 9007199254740992 * 9007199254740992 * (s.1 * x.2) * (f.1 * f.2)
+        = 9007199254740992 * (f.1 * 1) * (9007199254740992 * (s.1 * (x.2 * f.2))) := by
+      simp only [Nat.mul_one]; ac_rfl
+    have e2 : 9007199254740991 * 9007199254740991 * (x.1 * n * s.2) * (f.1 * f.2)
+        = 9007199254740991 * (n * f.2) * (9007199254740991 * (x.1 * f.1 * s.2)) := by ac_rfl
+    rw [e1, e2]; exact h
+
+/-- the fraction `s` lies within `(1 ± 2⁻⁵³)³` of `a / b` -/
+def Within3 (s : Nat × Nat) (a b : Nat) : Prop :=
+  0 < s.2 ∧
+  9007199254740992 * 9007199254740992 * 9007199254740992 * (s.1 * b)
+    ≤ 9007199254740993 * 9007199254740993 * 9007199254740993 * (a * s.2) ∧
+  9007199254740991 * 9007199254740991 * 9007199254740991 * (a * s.2)
+    ≤ 9007199254740992 * 9007199254740992 * 9007199254740992 * (s.1 * b)
+
+/-- the fraction `s` lies within `(1 ± 2⁻⁵³)²` of `a / b` -/
+def Within2 (s : Nat × Nat) (a b : Nat) : Prop :=
+  0 < s.2 ∧
+  9007199254740992 * 9007199254740992 * (s.1 * b) ≤ 9007199254740993 * 9007199254740993 * (a * s.2) ∧
+  9007199254740991 * 9007199254740991 * (a * s.2) ≤ 9007199254740992 * 9007199254740992 * (s.1 * b)
+
+theorem toNat_natCast_mul (k : Nat) (dt : Int) (hdt : 0 < dt) : ((k : Int) * dt).toNat = k * dt.toNat := by
+  obtain ⟨n, rfl⟩ := Int.eq_ofNat_of_zero_le (Int.le_of_lt hdt)
+  rw [← Int.natCast_mul, Int.toNat_natCast, Int.toNat_natCast]
+
+theorem intMeanSplits_le (a : List Int) : intMeanSplits a ≤ a.length - 1 := by
+  induction a using intMean.induct with
+  | case1 a h ih1 ih2 =>
+    rw [intMeanSplits_node h]
+    simp only [List.length_take, List.length_drop] at ih1 ih2
+    omega
+  | case2 a h => rw [intMeanSplits_leaf h]; omega
+
+/-! ## the shape of waves with dead time only between lines; the C02 geometries have it (deepening round D) -/
+
+/-- The info waves "with dead time only between lines" (C02's geometries, any lead-in, any dead time,
+    any truncation): discarded samples, then lines of exactly `B` used samples each followed by any
+    number of discarded samples, the last line possibly shorter and followed only by discarded
+    samples. -/
+inductive LinesOk (B : Nat) : List Nat → Prop
+  | nil : LinesOk B []
+  | zero {t : List Nat} : LinesOk B t → LinesOk B (0 :: t)
+  | line {U t : List Nat} : U.length = B → (∀ c ∈ U, c ≠ 0) → LinesOk B t → LinesOk B (U ++ t)
+  | last {U Z : List Nat} : U.length ≤ B → (∀ c ∈ U, c ≠ 0) → (∀ c ∈ Z, c = 0) → LinesOk B (U ++ Z)
+
+theorem usedOf_all_zero {α} : ∀ (Z : List Nat) (xs : List α), (∀ c ∈ Z, c = 0) → usedOf Z xs = []
+  | [], xs, _ => by cases xs <;> simp [usedOf]
+  | c :: cs, [], _ => by simp [usedOf]
+  | c :: cs, x :: xs, h => by
+    have hc := h c (by simp)
+    subst hc
+    simp only [usedOf, if_true]
+    exact usedOf_all_zero cs xs (fun c hc => h c (List.mem_cons_of_mem _ hc))
+
+theorem getD_mem (l : List Int) (i : Nat) (h : i < l.length) : l.getD i 0 ∈ l := by
+  rw [getD_eq _ _ h]; exact List.getElem_mem _
+
+theorem getD_append_l (l1 l2 : List Int) (i : Nat) (h : i < l1.length) :
+    (l1 ++ l2).getD i 0 = l1.getD i 0 := by
+  simp only [List.getD_eq_getElem?_getD, List.getElem?_append_left h]
+
+theorem getD_append_r (l1 l2 : List Int) (i : Nat) (h : l1.length ≤ i) :
+    (l1 ++ l2).getD i 0 = l2.getD (i - l1.length) 0 := by
+  simp only [List.getD_eq_getElem?_getD, List.getElem?_append_right h]
+
+theorem times_lo (dt : Int) (hdt : 0 < dt) (n : Nat) (t0 : Int) : ∀ y ∈ times t0 dt n, t0 ≤ y :=
+  (times_sep dt hdt n t0).2
+
+/-- in a wave of that shape no discarded sample lies between the first and the last used sample of a
+    line -/
+theorem linesOk_cont (B : Nat) (hB : 0 < B) (dt : Int) (hdt : 0 < dt) (iw : List Nat) (h : LinesOk B iw) :
+    ∀ (t0 : Int) (l : Nat), l * B < (usedOf iw (times t0 dt iw.length)).length →
+    ∀ t ∈ times t0 dt iw.length,
+      (usedOf iw (times t0 dt iw.length)).getD (l * B) 0 ≤ t →
+      t ≤ (usedOf iw (times t0 dt iw.length)).getD
+        (min ((l + 1) * B) (usedOf iw (times t0 dt iw.length)).length - 1) 0 →
+      t ∈ usedOf iw (times t0 dt iw.length) := by
+  induction h with
+  | nil => intro t0 l hl; simp [usedOf] at hl
+  | @zero tl _ ih =>
+    intro t0 l hl t ht hlo hhi
+    simp only [List.length_cons, times, usedOf, if_true] at hl ht hlo hhi ⊢
+    rcases List.mem_cons.mp ht with h0 | h0
+    · have hm := getD_mem _ _ hl
+      have := times_lo dt hdt _ _ _ ((usedOf_sublist _ _).subset hm)
+      omega
+    · exact ih (t0 + dt) l hl t h0 hlo hhi
+  | @line U tl hU hnz _ ih =>
+    intro t0 l hl t ht hlo hhi
+    have e1 : times t0 dt (U ++ tl).length = times t0 dt B ++ times (t0 + B * dt) dt tl.length := by
+      rw [List.length_append, hU, times_add]
+    have e2 : usedOf (U ++ tl) (times t0 dt (U ++ tl).length)
+        = times t0 dt B ++ usedOf tl (times (t0 + B * dt) dt tl.length) := by
+      rw [e1, usedOf_append _ _ _ _ (by rw [times_length, hU]),
+        usedOf_nonzero U _ hnz (by rw [times_length, hU])]
+    rw [e2] at hl hlo hhi ⊢
+    rw [e1] at ht
+    simp only [List.length_append, times_length] at hl hhi
+    have hA1 : ∀ y ∈ times t0 dt B, y + dt ≤ t0 + B * dt := times_stop dt hdt B t0
+    have hA2 : ∀ y ∈ times (t0 + B * dt) dt tl.length, t0 + B * dt ≤ y := times_lo dt hdt _ _
+    rcases Nat.eq_zero_or_pos l with hl0 | hl0
+    · subst hl0
+      -- the first line: its last sample is the last element of the first block
+      have hidx : min ((0 + 1) * B) (B + (usedOf tl (times (t0 + B * dt) dt tl.length)).length) - 1 = B - 1 := by
+        rw [Nat.zero_add, Nat.one_mul, Nat.min_eq_left (by omega)]
+      rw [hidx, getD_append_l _ _ _ (by rw [times_length]; omega)] at hhi
+      have hm := getD_mem (times t0 dt B) (B - 1) (by rw [times_length]; omega)
+      have := hA1 _ hm
+      rcases List.mem_append.mp ht with h1 | h2
+      · exact List.mem_append_left _ h1
+      · have := hA2 _ h2; omega
+    · obtain ⟨l', rfl⟩ : ∃ l', l = l' + 1 := ⟨l - 1, by omega⟩
+      have hmul : (l' + 1) * B = B + l' * B := by rw [Nat.add_mul]; omega
+      have hmul2 : (l' + 1 + 1) * B = B + (l' + 1) * B := by rw [Nat.add_mul (l' + 1) 1 B]; omega
+      have hl' : l' * B < (usedOf tl (times (t0 + B * dt) dt tl.length)).length := by omega
+      rw [hmul, getD_append_r _ _ _ (by rw [times_length]; omega), times_length,
+        Nat.add_sub_cancel_left] at hlo
+      have hidx : min ((l' + 1 + 1) * B) (B + (usedOf tl (times (t0 + B * dt) dt tl.length)).length) - 1
+          = B + (min ((l' + 1) * B) (usedOf tl (times (t0 + B * dt) dt tl.length)).length - 1) := by
+        rw [hmul2]; omega
+      rw [hidx, getD_append_r _ _ _ (by rw [times_length]; omega), times_length,
+        Nat.add_sub_cancel_left] at hhi
+      have hm := getD_mem _ _ hl'
+      have hge := hA2 _ ((usedOf_sublist _ _).subset hm)
+      rcases List.mem_append.mp ht with h1 | h2
+      · have := hA1 _ h1; omega
+      · exact List.mem_append_right _ (ih (t0 + B * dt) l' hl' t h2 hlo hhi)
+  | @last U Z hU hnz hz =>
+    intro t0 l hl t ht hlo hhi
+    have e1 : times t0 dt (U ++ Z).length = times t0 dt U.length ++ times (t0 + U.length * dt) dt Z.length := by
+      rw [List.length_append, times_add]
+    have e2 : usedOf (U ++ Z) (times t0 dt (U ++ Z).length) = times t0 dt U.length := by
+      rw [e1, usedOf_append _ _ _ _ (by rw [times_length]),
+        usedOf_nonzero U _ hnz (by rw [times_length]), usedOf_all_zero Z _ hz, List.append_nil]
+    rw [e2] at hl hlo hhi ⊢
+    rw [e1] at ht
+    simp only [times_length] at hl hhi
+    have hA1 : ∀ y ∈ times t0 dt U.length, y + dt ≤ t0 + U.length * dt := times_stop dt hdt _ t0
+    have hA2 : ∀ y ∈ times (t0 + U.length * dt) dt Z.length, t0 + U.length * dt ≤ y := times_lo dt hdt _ _
+    have hm := getD_mem (times t0 dt U.length) (min ((l + 1) * B) U.length - 1)
+      (by rw [times_length]; omega)
+    have := hA1 _ hm
+    rcases List.mem_append.mp ht with h1 | h2
+    · exact h1
+    · have := hA2 _ h2; omega
+
+/-- the semantic hypothesis `hcont` of `line_range_exact_raw` / `sum_over_ranges_eq_image` follows from
+    the shape of the info wave -/
+theorem hcont_of_linesOk (w : Wave) (hdt : 0 < w.dt) (k : Nat) (hk : w.pixelSize = some k) (P : Nat)
+    (hP : 0 < P) (hok : LinesOk (P * k) w.iw) :
+    ∀ l, l < numBlocks (w.usedTs.length / k) P → ∀ t ∈ w.allTs,
+      w.usedTs.getD (l * P * k) 0 ≤ t →
+      t ≤ w.usedTs.getD (min ((l + 1) * P) (w.usedTs.length / k) * k - 1) 0 → t ∈ w.usedTs := by
+  intro l hl t ht hlo hhi
+  have hk0 := pixelSize_pos w k hk
+  have hlt := (lt_numBlocks_iff _ _ _ hP).mp hl
+  have hm := mul_succ_le_of_lt_div _ _ _ hk0 hlt
+  have he3 := Nat.div_mul_le_self w.usedTs.length k
+  have he2 : min ((l + 1) * P) (w.usedTs.length / k) * k ≤ w.usedTs.length / k * k :=
+    Nat.mul_le_mul_right _ (Nat.min_le_right _ _)
+  have he4 : min ((l + 1) * P) (w.usedTs.length / k) * k ≤ (l + 1) * P * k :=
+    Nat.mul_le_mul_right _ (Nat.min_le_left _ _)
+  have hP1 : (l + 1) * P = l * P + P := by rw [Nat.add_mul]; omega
+  have he1 : (l * P + 1) * k ≤ min ((l + 1) * P) (w.usedTs.length / k) * k :=
+    Nat.mul_le_mul_right _ (by omega)
+  rw [Nat.add_mul] at he1
+  have a1 : l * (P * k) = l * P * k := (Nat.mul_assoc _ _ _).symm
+  have a2 : (l + 1) * (P * k) = (l + 1) * P * k := (Nat.mul_assoc _ _ _).symm
+  have hU : w.usedTs = usedOf w.iw (times w.start w.dt w.iw.length) := rfl
+  have hc := linesOk_cont (P * k) (Nat.mul_pos hP hk0) w.dt hdt w.iw hok w.start l
+    (by rw [← hU, a1]; omega) t ht (by rw [← hU, a1]; exact hlo)
+  rw [← hU] at hc
+  apply hc
+  rw [a2]
+  have hsep := usedTs_sep w hdt
+  have hle := hsep.getElem_le (by omega)
+    (i := min ((l + 1) * P) (w.usedTs.length / k) * k - 1)
+    (j := min ((l + 1) * P * k) w.usedTs.length - 1) (by omega) (by omega)
+  simp only [id] at hle
+  rw [getD_eq _ _ (by omega)] at hhi
+  rw [getD_eq _ _ (by omega)]
+  omega
+
+
+theorem linesOk_zeros_append (B : Nat) (t : List Nat) (h : LinesOk B t) : ∀ (n : Nat),
+    LinesOk B (List.replicate n 0 ++ t)
+  | 0 => by simpa using h
+  | n + 1 => by
+    rw [List.replicate_succ, List.cons_append]
+    exact LinesOk.zero (linesOk_zeros_append B t h n)
+
+theorem linesOk_zeros (B n : Nat) : LinesOk B (List.replicate n 0) := by
+  have := linesOk_zeros_append B [] LinesOk.nil n
+  simpa using this
+
+theorem geomPixel_length (k : Nat) (hk : 0 < k) : (geomPixel k).length = k := by
+  simp [geomPixel]; omega
+
+theorem geomPixel_nonzero (k : Nat) : ∀ c ∈ geomPixel k, c ≠ 0 := by
+  intro c hc
+  simp only [geomPixel, List.mem_append, List.mem_replicate, List.mem_singleton] at hc
+  rcases hc with ⟨_, rfl⟩ | rfl <;> decide
+
+theorem geomPixels_length (k : Nat) (hk : 0 < k) : ∀ (P : Nat),
+    (List.replicate P (geomPixel k)).flatten.length = P * k
+  | 0 => by simp
+  | P + 1 => by
+    rw [List.replicate_succ, List.flatten_cons, List.length_append, geomPixels_length k hk P,
+      geomPixel_length k hk, Nat.add_mul]; omega
+
+theorem geomPixels_nonzero (k P : Nat) : ∀ c ∈ (List.replicate P (geomPixel k)).flatten, c ≠ 0 := by
+  intro c hc
+  rcases List.mem_flatten.mp hc with ⟨p, hp, hcp⟩
+  rw [(List.mem_replicate.mp hp).2] at hcp
+  exact geomPixel_nonzero k c hcp
+
+theorem geomLines_ok (k P dead tail : Nat) (hk : 0 < k) : ∀ (lines : Nat),
+    LinesOk (P * k) ((List.replicate lines (geomLine k P dead)).flatten ++ List.replicate tail 0)
+  | 0 => by simpa using linesOk_zeros (P * k) tail
+  | n + 1 => by
+    rw [List.replicate_succ, List.flatten_cons, geomLine, List.append_assoc, List.append_assoc]
+    exact LinesOk.line (geomPixels_length k hk P) (geomPixels_nonzero k P)
+      (linesOk_zeros_append _ _ (geomLines_ok k P dead tail hk n) dead)
+
+theorem LinesOk.take {B : Nat} {l : List Nat} (h : LinesOk B l) : ∀ (n : Nat), LinesOk B (l.take n) := by
+  induction h with
+  | nil => intro n; simpa using LinesOk.nil
+  | zero _ ih =>
+    intro n
+    cases n with
+    | zero => simpa using LinesOk.nil
+    | succ n => rw [List.take_succ_cons]; exact LinesOk.zero (ih n)
+  | @line U t hU hnz _ ih =>
+    intro n
+    rw [List.take_append]
+    by_cases hn : n ≤ U.length
+    · have : t.take (n - U.length) = [] := by simp [Nat.sub_eq_zero_of_le hn]
+      rw [this]
+      exact LinesOk.last (by simp only [List.length_take]; omega)
+        (fun c hc => hnz c (List.mem_of_mem_take hc)) (by simp)
+    · rw [List.take_of_length_le (by omega)]
+      exact LinesOk.line hU hnz (ih _)
+  | @last U Z hU hnz hz =>
+    intro n
+    rw [List.take_append]
+    exact LinesOk.last (by simp only [List.length_take]; omega)
+      (fun c hc => hnz c (List.mem_of_mem_take hc)) (fun c hc => hz c (List.mem_of_mem_take hc))
+
+/-- every C02 kymograph geometry, truncated anywhere, has the shape `LinesOk` -/
+theorem geomKymo_linesOk (lead k P dead lines tail n : Nat) (hk : 0 < k) :
+    LinesOk (P * k) ((geomKymo lead k P dead lines tail).take n) :=
+  (linesOk_zeros_append _ _ (geomLines_ok k P dead tail hk lines) lead).take n
+
+theorem filter_take_prefix {α} (p : α → Bool) : ∀ (l : List α) (n : Nat),
+    (l.take n).filter p = (l.filter p).take ((l.take n).filter p).length
+  | [], n => by simp
+  | a :: t, 0 => by simp
+  | a :: t, n + 1 => by
+    rw [List.take_succ_cons, List.filter_cons, List.filter_cons]
+    cases hp : p a
+    · simp only [Bool.false_eq_true, if_false]; exact filter_take_prefix p t n
+    · simp only [if_true, List.length_cons, List.take_succ_cons]
+      rw [← filter_take_prefix p t n]
+
+theorem filter_nonzero_zeros (n : Nat) : (List.replicate n 0).filter (· ≠ 0) = [] := by
+  rw [List.filter_eq_nil_iff]; intro c hc; rw [(List.mem_replicate.mp hc).2]; decide
+
+theorem filter_nonzero_self (l : List Nat) (h : ∀ c ∈ l, c ≠ 0) : l.filter (· ≠ 0) = l := by
+  rw [List.filter_eq_self]; intro c hc; simpa using h c hc
+
+theorem geomLines_subset (k P dead : Nat) : ∀ (lines : Nat),
+    ((List.replicate lines (geomLine k P dead)).flatten).filter (· ≠ 0)
+      = (List.replicate (lines * P) (geomPixel k)).flatten
+  | 0 => by simp
+  | n + 1 => by
+    rw [List.replicate_succ, List.flatten_cons, List.filter_append, geomLines_subset k P dead n, geomLine,
+      List.filter_append, filter_nonzero_zeros, List.append_nil,
+      filter_nonzero_self _ (geomPixels_nonzero k P), Nat.add_mul, Nat.one_mul, Nat.add_comm (n * P) P,
+      ← List.replicate_append_replicate, List.flatten_append]
+
+theorem geomKymo_subset (lead k P dead lines tail : Nat) :
+    (geomKymo lead k P dead lines tail).filter (· ≠ 0) = (List.replicate (lines * P) (geomPixel k)).flatten := by
+  rw [geomKymo, List.filter_append, List.filter_append, filter_nonzero_zeros, filter_nonzero_zeros,
+    geomLines_subset]
+  simp
+
+theorem take_geomPixel (k r : Nat) (hr : r < k) : (geomPixel k).take r = List.replicate r 1 := by
+  rw [geomPixel, List.take_append_of_le_length (by simp; omega), List.take_replicate,
+    Nat.min_eq_left (by omega)]
+
+theorem take_geomPixels (k : Nat) (hk : 0 < k) : ∀ (M n : Nat), n ≤ M * k →
+    ((List.replicate M (geomPixel k)).flatten).take n
+      = (List.replicate (n / k) (geomPixel k)).flatten ++ List.replicate (n % k) 1
+  | 0, n, h => by
+    have : n = 0 := by omega
+    subst this; simp
+  | M + 1, n, h => by
+    rw [List.replicate_succ, List.flatten_cons]
+    by_cases hn : n < k
+    · rw [List.take_append_of_le_length (by rw [geomPixel_length k hk]; omega), take_geomPixel k n hn,
+        Nat.div_eq_of_lt hn, Nat.mod_eq_of_lt hn]
+      simp
+    · obtain ⟨j, rfl⟩ : ∃ j, n = k + j := ⟨n - k, by omega⟩
+      have hj : j ≤ M * k := by rw [Nat.add_mul] at h; omega
+      rw [List.take_append, geomPixel_length k hk, List.take_of_length_le (by rw [geomPixel_length k hk]; omega),
+        Nat.add_sub_cancel_left, take_geomPixels k hk M j hj, Nat.add_div_left j hk, Nat.add_mod_left,
+        List.replicate_succ, List.flatten_cons, List.append_assoc]
+
+/-- every C02 kymograph geometry, truncated anywhere after its first complete pixel, is `Regular` -/
+theorem geomKymo_regular (w : Wave) (lead k P dead lines tail n : Nat) (hk : 0 < k)
+    (hiw : w.iw = (geomKymo lead k P dead lines tail).take n) (hpix : k ≤ w.subset.length) :
+    w.Regular k (w.subset.length / k) (w.subset.length % k) := by
+  have hsub : w.subset = ((List.replicate (lines * P) (geomPixel k)).flatten).take w.subset.length := by
+    conv => lhs; unfold Wave.subset; rw [hiw, filter_take_prefix, geomKymo_subset]
+    congr 1
+    unfold Wave.subset; rw [hiw]
+  have hle : w.subset.length ≤ lines * P * k := by
+    have := congrArg List.length hsub
+    rw [List.length_take, geomPixels_length k hk] at this
+    omega
+  refine ⟨hk, Nat.div_pos hpix hk, Nat.mod_lt _ hk, ?_⟩
+  conv => lhs; rw [hsub]
+  exact take_geomPixels k hk _ _ hle
+
+/-! ## scan frames as an index function -/
+
+theorem take_drop_map_range (g : Nat → Int) (N s n : Nat) (h : s + n ≤ N) :
+    (((List.range N).map g).drop s).take n = (List.range n).map fun b => g (s + b) := by
+  apply List.ext_getElem?
+  intro i
+  by_cases hi : i < n
+  · rw [List.getElem?_take_of_lt hi, List.getElem?_drop, List.getElem?_map, List.getElem?_map,
+      List.getElem?_range (by omega), List.getElem?_range hi]
+    rfl
+  · rw [List.getElem?_eq_none (by simp only [List.length_take]; omega),
+      List.getElem?_eq_none (by simp; omega)]
+
+theorem scanFrames_eq (P L : Nat) (flip : Bool) (pix : List Int) :
+    scanFrames P L flip pix = (List.range (numBlocks pix.length (L * P))).map fun f =>
+      if flip then (List.range P).map fun a => (List.range L).map fun b => pix.getD (f * (L * P) + (b * P + a)) 0
+      else (List.range L).map fun a => (List.range P).map fun b => pix.getD (f * (L * P) + (a * P + b)) 0 := by
+  unfold scanFrames
+  rw [padRows_eq, List.map_map]
+  apply List.map_congr_left
+  intro f _
+  simp only [Function.comp]
+  have hlines : takeRows P L ((List.range (L * P)).map fun r => pix.getD (f * (L * P) + r) 0)
+      = (List.range L).map fun a => (List.range P).map fun b => pix.getD (f * (L * P) + (a * P + b)) 0 := by
+    rw [takeRows_eq_map_range]
+    apply List.map_congr_left
+    intro a ha
+    have ha := List.mem_range.mp ha
+    rw [take_drop_map_range _ _ _ _ (by
+      have : (a + 1) * P ≤ L * P := Nat.mul_le_mul_right _ (by omega)
+      rw [Nat.add_mul] at this; omega)]
+  rw [hlines]
+  cases flip
+  · simp
+  · simp only [if_true]
+    unfold transposeN
+    apply List.map_congr_left
+    intro a ha
+    have ha := List.mem_range.mp ha
+    rw [List.map_map]
+    apply List.map_congr_left
+    intro b _
+    simp only [Function.comp]
+    rw [getD_map_range _ _ _ ha]
+
+/-- in a strictly increasing stream the half-open window `[l[a], l[b+1])` selects the elements `a … b` -/
+theorem filter_window_next (l : List Int) (h : Sep 1 id l) (a b : Nat) (hab : a ≤ b)
+    (hb : b + 1 < l.length) :
+    l.filter (fun t => decide (l[a]'(by omega) ≤ t) && decide (t < l[b + 1]))
+      = (l.drop a).take (b + 1 - a) := by
+  rw [← filter_window 1 (by omega) id l h a b hab (by omega) (l[a]'(by omega)) (l[b]'(by omega)) rfl rfl]
+  apply List.filter_congr
+  intro t ht
+  rcases List.getElem_of_mem ht with ⟨i, hi, rfl⟩
+  simp only [id]
+  by_cases hib : i ≤ b
+  · have h1 := h.getElem_le (by omega) (i := i) (j := b) (by omega) hib
+    have h2 := h.getElem_lt (i := b) (j := b + 1) hb (by omega)
+    simp only [id] at h1 h2
+    have e1 : decide (l[i] < l[b + 1]) = true := decide_eq_true (by omega)
+    have e2 : decide (l[i] < l[b] + 1) = true := decide_eq_true (by omega)
+    rw [e1, e2]
+  · have h1 := h.getElem_le (by omega) (i := b + 1) (j := i) hi (by omega)
+    have h2 := h.getElem_lt (i := b) (j := i) hi (by omega)
+    simp only [id] at h1 h2
+    have e1 : decide (l[i] < l[b + 1]) = false := decide_eq_false (by omega)
+    have e2 : decide (l[i] < l[b] + 1) = false := decide_eq_false (by omega)
+    rw [e1, e2]
+
 end Verif.C03
